@@ -433,7 +433,7 @@ fn slice_eq(x: &Set, y: &Set, v: u8) -> bool {
     }
 }
 
-//@ harness props=C02,C03,C04,C08,C09,C20 variants=NM+2 bounds=quick:small,thorough:small covers=3,4,5 name=Orswot L_merge: merge(SPEC(U,K1), SPEC(U,K2)) == SPEC(U, K1 u K2) for all knowledge pairs (incl. pending removes, stale and equal states); one output slice per variant
+//@ harness props=C02,C03,C04,C07,C08,C09,C20 variants=NM+2 bounds=quick:small,thorough:small covers=3,4,5 name=Orswot L_merge: merge(SPEC(U,K1), SPEC(U,K2)) == SPEC(U, K1 u K2) for all knowledge pairs (incl. pending removes, stale and equal states); one output slice per variant
 #[no_mangle]
 pub fn h_orswot_merge(inp: &Inp) -> u8 {
     let mut i = In::new(inp);
@@ -700,7 +700,7 @@ pub fn h_orswot_validate_merge_misuse(inp: &Inp) -> u8 {
     }
 }
 
-//@ harness props=C18 covers=3,4 name=Orswot reset_remove(c) on SPEC(U,K) for any clock c (below, above, concurrent): clock, member witnesses and pending contexts lose exactly the covered dots; emptied members / pending removes vanish; empty clock no-op; own clock empties; c1 then c2 = join; idempotent
+//@ harness props=C01,C05,C18 covers=3,4 name=Orswot reset_remove(c) on SPEC(U,K) for any clock c (below, above, concurrent): clock, member witnesses and pending contexts lose exactly the covered dots; emptied members / pending removes vanish; empty clock no-op; own clock empties; c1 then c2 = join; idempotent
 #[no_mangle]
 pub fn h_orswot_reset_remove(inp: &Inp) -> u8 {
     use crate::ResetRemove;
@@ -787,7 +787,7 @@ pub fn h_orswot_reset_remove(inp: &Inp) -> u8 {
     }
 }
 
-//@ harness props=C04,C08,C20 covers=3 name=Orswot L_apply(rm, equal context): a second remove that carries the SAME context as an already applied (possibly pending) remove but other members acts like one remove of the union of the members
+//@ harness props=C01,C03,C04,C08,C09,C20 covers=3 name=Orswot L_apply(rm, equal context): a second remove that carries the SAME context as an already applied (possibly pending) remove but other members acts like one remove of the union of the members
 #[no_mangle]
 pub fn h_orswot_apply_rm_same_ctx(inp: &Inp) -> u8 {
     let mut i = In::new(inp);
@@ -832,7 +832,7 @@ fn fine_slice_eq(x: &Set, y: &Set, v: u8) -> bool {
     }
 }
 
-//@ harness props=C02,C03,C04,C08,C09,C20 tiers=thorough variants=NM*NA+1 bounds=thorough:base covers=3,4,5 name=Orswot L_merge with 3 actors (per-witness and pending-table slices): merge(SPEC(U,K1), SPEC(U,K2)) == SPEC(U, K1 u K2) for all knowledge pairs
+//@ harness props=C02,C03,C04,C07,C08,C09,C20 tiers=thorough variants=NM*NA+1 bounds=thorough:base covers=3,4,5 name=Orswot L_merge with 3 actors (per-witness and pending-table slices): merge(SPEC(U,K1), SPEC(U,K2)) == SPEC(U, K1 u K2) for all knowledge pairs
 #[no_mangle]
 pub fn h_orswot_merge3(inp: &Inp) -> u8 {
     let mut i = In::new(inp);
